@@ -70,7 +70,7 @@ class Base:
             why = self.property_failure(block, I, S, M)
             if why:
                 prop_fail.append({"case": block, "impl": I, "model": M, "spec": S, "why": why})
-            elif I != M:
+            elif I != M and not (len(M) == 1 and M[0].endswith("NOMODEL")):
                 k = next((i for i in range(min(len(I), len(M))) if I[i] != M[i]), min(len(I), len(M)))
                 model_only.append({"case": block, "impl": I, "model": M, "spec": S,
                                    "why": f"first difference at observation {k}: impl={I[k] if k < len(I) else None!r:.200} model={M[k] if k < len(M) else None!r:.200}"})
